@@ -170,6 +170,9 @@ struct Walk<'a> {
     found: Option<(Violation, Value)>,
     sample: Option<Value>,
     want_sample: bool,
+    /// Exploration budget of the whole tier (see `exhaustive_schedules`).
+    deadline: std::time::Instant,
+    out_of_budget: bool,
 }
 
 impl Walk<'_> {
@@ -205,7 +208,11 @@ impl Walk<'_> {
     }
 
     fn dfs(&mut self, prefix: &mut Vec<Act>, spurious: usize) {
-        if self.found.is_some() {
+        if self.found.is_some() || self.out_of_budget {
+            return;
+        }
+        if self.runs % 256 == 255 && std::time::Instant::now() > self.deadline {
+            self.out_of_budget = true;
             return;
         }
         let (finished, options, wants_poll) = probe(self.spec, self.cfg, prefix);
@@ -226,15 +233,23 @@ impl Walk<'_> {
             prefix.push(a);
             self.dfs(prefix, spurious + is_spurious as usize);
             prefix.pop();
-            if self.found.is_some() {
+            if self.found.is_some() || self.out_of_budget {
                 return;
             }
         }
     }
 }
 
-pub fn exhaustive_schedules(prop: &str, max_n: usize, max_spurious: usize, workers: usize) -> ExhaustResult {
+/// `budget_s`: exploration budget of the tier.  On the unchanged tree the tier needs a
+/// small fraction of it; a change that lets runs go on for ever (a stream that never
+/// ends) multiplies the schedules of every configuration, and the walk would take
+/// hours.  When the budget is used up the walk stops, the sub-space is reported as
+/// *not complete*, nothing is reported as a violation, and the check goes on with its
+/// other tiers.
+pub fn exhaustive_schedules(prop: &str, max_n: usize, max_spurious: usize, workers: usize, budget_s: u64) -> ExhaustResult {
     let specs = specs(max_n);
+    let deadline = std::time::Instant::now() + std::time::Duration::from_secs(budget_s);
+    let out_of_budget = AtomicBool::new(false);
     let configs = AtomicU64::new(0);
     let runs = AtomicU64::new(0);
     let nontrivial = AtomicU64::new(0);
@@ -270,6 +285,8 @@ pub fn exhaustive_schedules(prop: &str, max_n: usize, max_spurious: usize, worke
                         found: None,
                         sample: None,
                         want_sample: matches!(c, 50 | 2000 | 40_000),
+                        deadline,
+                        out_of_budget: false,
                     };
                     let mut prefix = vec![];
                     w.dfs(&mut prefix, 0);
@@ -278,6 +295,10 @@ pub fn exhaustive_schedules(prop: &str, max_n: usize, max_spurious: usize, worke
                     deepest.fetch_max(w.deepest as u64, Ordering::Relaxed);
                     if w.truncated {
                         truncated.store(true, Ordering::Relaxed);
+                    }
+                    if w.out_of_budget {
+                        out_of_budget.store(true, Ordering::Relaxed);
+                        stop.store(true, Ordering::Relaxed);
                     }
                     if let Some(s) = w.sample {
                         samples.lock().unwrap().push(s);
@@ -296,15 +317,16 @@ pub fn exhaustive_schedules(prop: &str, max_n: usize, max_spurious: usize, worke
     });
     let violation = found.into_inner().unwrap();
     let trunc = truncated.into_inner();
+    let oob = out_of_budget.into_inner();
     ExhaustResult {
         configs: configs.into_inner(),
         runs: runs.into_inner(),
         nontrivial: nontrivial.into_inner(),
-        complete: violation.is_none() && !trunc,
+        complete: violation.is_none() && !trunc && !oob,
         violation,
         description: format!(
             "every schedule (all completion / poll / signal orders, <= {max_spurious} spurious poll per run{}) of every API x option combination of this property's profile on all {} graph specs with n <= {max_n} functions (all labelled DAGs x {{none, read, write}} of one data type per function); {} build",
-            if trunc { ", TRUNCATED at the depth bound" } else { "" },
+            if oob { ", STOPPED when the exploration budget was used up: NOT complete" } else if trunc { ", TRUNCATED at the depth bound" } else { "" },
             specs.len(),
             if INTR { "intr" } else { "plain" }
         ),
